@@ -336,9 +336,76 @@ pub fn run_c06(cfg: &Cfg) -> Report {
         }
     });
     rep.stats.merge(s);
+    // lane 3: messages the encoder hands to the flavour as BLOCKS (strings / byte arrays), so that block-write
+    // paths of the COBS flavour meet every alignment of chunk boundary and 254-byte run boundary
+    let s = parallel(cfg, 3, |t| {
+        let (single_hi, firsts, second_hi): (usize, Vec<usize>, usize) = match t.cfg.tier {
+            Tier::Tiny => (300, vec![0, 16, 253], 40),
+            Tier::Quick => (1100, vec![0, 1, 15, 16, 17, 100, 250, 251, 252, 253, 254, 255, 300, 507, 508, 600], 560),
+            Tier::Thorough => (2100, vec![0, 1, 2, 15, 16, 17, 31, 100, 200, 250, 251, 252, 253, 254, 255, 256, 300, 400, 506, 507, 508, 509, 600, 761, 762, 1016], 1100),
+        };
+        let mut idx = 0u64;
+        let piece = |rng: &mut crate::rng::Rng, n: usize, style: u32| -> (Shape, Val) {
+            match style {
+                0 => (Shape::Str, Val::Str((0..n).map(|i| (b'a' + (i % 26) as u8) as char).collect())),
+                1 => (Shape::Bytes, Val::Bytes((0..n).map(|_| 1 + (rng.next() % 255) as u8).collect())),
+                _ => (Shape::Bytes, Val::Bytes((0..n).map(|_| if rng.chance(1, 60) { 0 } else { 1 + (rng.next() % 255) as u8 }).collect())),
+            }
+        };
+        for n in 0..=single_hi {
+            for style in 0..3u32 {
+                idx += 1;
+                if !t.mine(idx) || t.cfg.expired() {
+                    continue;
+                }
+                let (shape, val) = piece(&mut t.rng, n, style);
+                t.st.count("block_written_messages");
+                c06_value(t, &shape, &val, n > 64);
+            }
+        }
+        for &a in &firsts {
+            for b in 0..=second_hi {
+                idx += 1;
+                if !t.mine(idx) || t.cfg.expired() {
+                    continue;
+                }
+                let style = (b % 3) as u32;
+                let (s1, v1) = piece(&mut t.rng, a, if style == 2 { 1 } else { style });
+                let (s2, v2) = piece(&mut t.rng, b, style);
+                t.st.count("block_written_messages");
+                t.st.count("two_block_messages");
+                c06_value(t, &Shape::Tuple(vec![s1, s2]), &Val::Tuple(vec![v1, v2]), true);
+            }
+        }
+        let nr = t.cfg.scale(3, 1500, 30_000);
+        for _ in 0..nr {
+            if t.cfg.expired() {
+                break;
+            }
+            // 3..5 blocks of random lengths with scalars in between
+            let k = t.rng.range(3, 5);
+            let mut shapes = Vec::new();
+            let mut vals = Vec::new();
+            for _ in 0..k {
+                let n = *t.rng.pick(&[0usize, 3, 16, 17, 40, 120, 200, 236, 237, 238, 250, 253, 254, 300]) + t.rng.range(0, 3);
+                let style = t.rng.below(3) as u32;
+                let (s1, v1) = piece(&mut t.rng, n, style);
+                shapes.push(s1);
+                vals.push(v1);
+                if t.rng.chance(1, 3) {
+                    shapes.push(Shape::U32);
+                    vals.push(Val::U32(gen_uint(&mut t.rng, 32) as u32));
+                }
+            }
+            t.st.count("block_written_messages");
+            c06_value(t, &Shape::Tuple(shapes), &Val::Tuple(vals), true);
+        }
+    });
+    rep.stats.merge(s);
+    rep.floor("block_written_messages", 100);
     rep.rule = "cases = message (plain encoding) x storage kind, and frame sequences: every message up to length 8 (quick) / 10 (thorough) over {00,01,02,FF} produced through \
                 tuple-of-u8 shapes, zero-free / single-zero / sprinkled / edge-zero runs of length 252..256, 507..510, 761..764, 1015..1018, random messages up to 1200 bytes, \
-                ordinary random-shape values; storage = slice, heapless (6 capacities), growable; sequences of 1..6 frames walked with take_from_bytes_cobs, with and without \
+                messages written as blocks (one string / byte array of every length 0..1100 quick / 2100 thorough; pairs with the first block at 16 (26) lengths and the second of every length 0..560 (1100); 3-5 random blocks with scalars between), ordinary random-shape values; storage = slice, heapless (6 capacities), growable; sequences of 1..6 frames walked with take_from_bytes_cobs, with and without \
                 the last sentinel. Non-trivial = every message; distinct = fingerprint of (shape, plain bytes)."
         .into();
     rep.assumptions = vec![
@@ -669,8 +736,57 @@ pub fn run_c07(cfg: &Cfg) -> Report {
         }
     });
     rep.stats.merge(s);
+    // lane 3: long frames (encoded lengths around every power of two up to 2^20 / 2^17 quick), zero-free and mixed
+    if !matches!(cfg.tier, Tier::Tiny) {
+        let s = parallel(cfg, 3, |t| {
+            let top = if matches!(t.cfg.tier, Tier::Thorough) { 20u32 } else { 17 };
+            let mut gb = GuardBuf::new(((1usize << top) + 8192) / 4096 + 2);
+            let mut idx = 0u64;
+            for k in 9..=top {
+                for d in [-3i64, -2, -1, 0, 1, 2, 5] {
+                    for style in 0..3u32 {
+                        idx += 1;
+                        if !t.mine(idx) || t.cfg.expired() {
+                            continue;
+                        }
+                        // payload length such that the frame (code bytes + sentinel) is about 2^k + d bytes
+                        let target = ((1i64 << k) + d) as usize;
+                        let body = target - target / 255 - 4;
+                        let content: Vec<u8> = (0..body)
+                            .map(|i| match style {
+                                0 => 1 + (i % 251) as u8,                             // zero-free
+                                1 => if i % 300 == 299 { 0 } else { 0x41 + (i % 20) as u8 }, // a zero now and then
+                                _ => (t.rng.next() % 256) as u8,
+                            })
+                            .collect();
+                        let (shape, val) = match (style + k) % 3 {
+                            0 => (Shape::Bytes, Val::Bytes(content)),
+                            1 => (Shape::Str, Val::Str(content.iter().map(|b| (0x20 + b % 0x5F) as char).collect())),
+                            _ => (Shape::Seq(Box::new(Shape::U8)), Val::Seq(content.iter().map(|b| Val::U8(*b)).collect())),
+                        };
+                        let text = shape.text();
+                        let sfp = fp(text.as_bytes());
+                        let mut frame = cobs_encode(&spec::encode(&val));
+                        frame.push(0);
+                        t.st.count("long_frames");
+                        c07_case(t, &mut gb, &shape, &text, sfp, "long_frame", &frame);
+                        let mut tail = frame.clone();
+                        tail.extend_from_slice(&[2, 7, 0]);
+                        c07_case(t, &mut gb, &shape, &text, sfp, "long_frame_with_tail", &tail);
+                        c07_case(t, &mut gb, &shape, &text, sfp, "long_frame_truncated", &frame[..frame.len() - 2]);
+                        let o = t.rng.below(frame.len() as u64 - 1) as usize;
+                        let mut bad = frame.clone();
+                        bad[o] = if bad[o] == 0xFF { 0xFE } else { 0xFF };
+                        c07_case(t, &mut gb, &shape, &text, sfp, "long_frame_corrupted", &bad);
+                    }
+                }
+            }
+        });
+        rep.stats.merge(s);
+        rep.floor("long_frames", 50);
+    }
     rep.rule = "cases = (target shape, input bytes): every byte string up to length 7 (quick) / 9 (thorough) over {00,01,02,03,05,FF}; valid frames of random values with every \
-                truncation and every single-byte substitution; code bytes pointing exactly at / 1 / 2 past the end; random bytes; targets u8, (u8,u8), bytes, str, seq(u16), \
+                truncation and every single-byte substitution; code bytes pointing exactly at / 1 / 2 past the end; random bytes; long frames of bytes/str/seq(u8) with encoded lengths 2^k-3..2^k+5 for k = 9..17 (quick) / 20 (thorough), zero-free, sparse-zero and random, valid / with tail / truncated / one byte corrupted; targets u8, (u8,u8), bytes, str, seq(u16), \
                 option(bool), unit and random shapes; every input decoded by take_from_bytes_cobs and from_bytes_cobs flush against a guard page on either side. \
                 Non-trivial = non-empty input; distinct = fingerprint of (shape, input)."
         .into();
